@@ -18,7 +18,7 @@ Check2 ==
 \* values: all five special characters, leading/trailing blanks, tab, newline, a non-ASCII placeholder, look-alikes
 cVals == [names |-> {N(<<"a">>), N(<<"B">>)}, anames |-> {N(<<"x">>), N(<<"k", "-", "x">>)},
           avals |-> {<<"<", "&", ">">>, <<"\"", "'">>, <<" ", "7", " ">>, <<"~", "'">>, BigNum},
-          texts |-> {<<"<", "&", ">">>, <<"\"", "'">>, <<" ", "v", "\t">>, Big19, <<"~", "&", "\n", "~">>, <<"\n">>}, maxattrs |-> 1, comments |-> FALSE]
+          texts |-> {<<"<", "&", ">">>, <<"\"", "'">>, <<" ", "v", "\t">>, Big19, <<"-", "I", "n", "f", "i", "n", "i", "t", "y">>, <<"~", "&", "\n", "~">>, <<"\n">>}, maxattrs |-> 1, comments |-> FALSE]
 \* values with exactly ONE kind of special character each (an escaping routine that looks for "any special" first)
 cVals1 == [names |-> {N(<<"a">>)}, anames |-> {N(<<"x">>), N(<<"y">>)},
            avals |-> {<<"\"">>, <<"'">>, <<"<">>, <<">">>, <<"&">>, <<"v">>},
